@@ -42,11 +42,8 @@ func edgeWhere(ifi *ssa.If, want bool) edge {
 // the boolean result of a call to one of names; returns the edge on which the
 // call returned true.
 func trueEdgesOfCall(fn *ssa.Function, names ...string) (edges []edge, calls []*ssa.Call) {
-	for _, b := range fn.Blocks {
-		ifi, ok := b.Instrs[len(b.Instrs)-1].(*ssa.If)
-		if !ok {
-			continue
-		}
+	for _, ifi := range viewIfs(fn) {
+		b := ifi.Block()
 		v := ifi.Cond
 		neg := false
 		for {
@@ -218,6 +215,8 @@ func checkC04(c *Ctx, r *Report) {
 					sigSlice = x
 				case *ssa.UnOp:
 					if x.Op == token.MUL && apOf(x.X).SelString() == "Signature" {
+						// the last store to the field before the comparison (a nil store on the
+						// unauthenticated or truncated arms never reaches it)
 						allInstrs(dec, false, func(in ssa.Instruction) {
 							if sel, _, st, isSt := storeSel(in); isSt && sel == "Signature" {
 								if sl, isSl := st.Val.(*ssa.Slice); isSl && mustPrecede(dec, st, call) {
@@ -228,7 +227,7 @@ func checkC04(c *Ctx, r *Report) {
 					}
 				}
 				data := dec.Params[1]
-				if sigSlice == nil || sigSlice.X != ssa.Value(data) || sigSlice.High != nil || sigSlice.Low == nil {
+				if sigSlice == nil || viewVal(dec, sigSlice.X) != ssa.Value(data) || sigSlice.High != nil || sigSlice.Low == nil {
 					ok, why = false, "the received signature is not the whole tail data[k:] of the input"
 				}
 				sc := sum.(*ssa.Call)
@@ -243,7 +242,7 @@ func checkC04(c *Ctx, r *Report) {
 						ok, why = false, "hash is not keyed by the layer's IntegrityAlgorithm"
 					}
 					bs, isSl := sc.Call.Args[1].(*ssa.Slice)
-					if ok && (!isSl || bs.X != ssa.Value(data) || bs.Low != nil || bs.High == nil) {
+					if ok && (!isSl || viewVal(dec, bs.X) != ssa.Value(data) || bs.Low != nil || bs.High == nil) {
 						ok, why = false, "hashed bytes are not the prefix data[:k] of the input"
 					}
 					if ok && bs.High != sigSlice.Low {
